@@ -316,6 +316,7 @@ type outcome struct {
 	state    string
 	fails    []failure
 	offByOne bool
+	missed   bool
 	err      string
 }
 
@@ -495,8 +496,12 @@ func execSegment(sc *ck.Script, i int, p *prepared) bool {
 	}
 	k := seg.K % len(win)
 	ktr, err := ck.Run(exe, p.base, scriptPath, p.dir, &ck.Inject{Name: win[k].Name, Ord: win[k].Ord})
-	if err != nil || !ktr.Killed || !ktr.HasBegin || ktr.HasEnd {
-		panic(fmt.Sprintf("earlier segment was not killed inside its window: %v (script %s)", err, sc.JSON()))
+	if err != nil {
+		panic(fmt.Sprintf("earlier segment: %v (script %s)", err, sc.JSON()))
+	}
+	if !ktr.Killed || !ktr.HasBegin || ktr.HasEnd {
+		run.Count("kill-missed-window")
+		return false
 	}
 	nm := ck.NewNamer(p.base, sc)
 	done := ktr.Window()
@@ -577,6 +582,10 @@ func runMain(sc *ck.Script, p *prepared, onlyK int, allK bool) {
 	}
 
 	emit := func(o outcome) {
+		if o.missed {
+			run.Count("kill-missed-window")
+			return
+		}
 		id := run.NewID()
 		rp := map[string]any{"script": sc, "k": o.k}
 		if o.err != "" {
@@ -628,7 +637,7 @@ func runMain(sc *ck.Script, p *prepared, onlyK int, allK bool) {
 	wg.Wait()
 	for _, o := range outs {
 		emit(o)
-		if o.j > 0 && o.j < len(steps) {
+		if !o.missed && o.j > 0 && o.j < len(steps) {
 			run.Nontrivial(fmt.Sprintf("K %s %d pre%d", sc.Final.String(), o.j, len(sc.Pre)))
 		}
 	}
@@ -654,7 +663,10 @@ func killAt(sc *ck.Script, scriptPath, root string, win []ck.Event, k int, sizes
 		return outcome{err: err.Error()}
 	}
 	if !tr.Killed || !tr.HasBegin || tr.HasEnd {
-		return outcome{err: fmt.Sprintf("child was not killed inside the window (k=%d %s#%d) stdout=%s", k, win[k].Name, win[k].Ord, tr.Stdout)}
+		// The per-name ordinal did not land inside the window (a system call was
+		// restarted or the runtime issued one more): not a crash point of the final
+		// operation, so nothing can be judged.  Counted, never reported.
+		return outcome{missed: true}
 	}
 	nm := ck.NewNamer(root, sc)
 	done := tr.Window()
